@@ -2,6 +2,7 @@ package harness
 
 import (
 	"bytes"
+	"os"
 	"encoding/json"
 	"fmt"
 	"hash/fnv"
@@ -9,6 +10,7 @@ import (
 	"strings"
 
 	"github.com/glebziz/fs_db"
+	"github.com/glebziz/fs_db/internal/model/sequence"
 	"github.com/glebziz/fs_db/internal/verif/refmodel"
 	"github.com/glebziz/fs_db/internal/verif/simrt"
 )
@@ -27,6 +29,21 @@ type SeqCase struct {
 	Client   string    `json:"client,omitempty"` // inline (default) | simgrpc
 	BadgerFailUpdates []uint64 `json:"badger_fail,omitempty"` // indices (per world, 1-based) of Badger updates that fail before applying
 	FaultOps []int     `json:"fault_ops,omitempty"` // indices of ops whose Badger updates fail (resolved at run time)
+	// process-boundary segments: the world lives in Dir (kept between processes); operations before
+	// From only advance the model (earlier processes executed them), operations from To on are left
+	// to later processes
+	Dir     string `json:"dir,omitempty"`
+	From    int    `json:"from,omitempty"`
+	To      int    `json:"to,omitempty"`
+	Fixture string `json:"fixture,omitempty"` // start from this database directory (written by another binary) instead of an empty one
+	Corrupt *CorruptSpec `json:"corrupt,omitempty"`
+}
+
+// CorruptSpec damages one stored version record before the database is opened.
+type CorruptSpec struct {
+	Pick     int  `json:"pick"`     // which file/ record (index modulo their number)
+	Truncate int  `json:"truncate"` // new length (-1: keep the length)
+	Garble   bool `json:"garble"`   // replace the bytes by seeded garbage
 }
 
 type seqRun struct {
@@ -123,6 +140,20 @@ func (s *seqRun) step(i int, o Op) bool {
 		simrt.Background(o.N)
 	case "drain":
 		s.w.Drain()
+	case "restart":
+		// a process boundary inside one process: close, the sequence counter of a fresh process, open
+		if err := s.w.Close(); err != nil {
+			s.fail("error-class", "close", fmt.Sprintf("step %d: Close failed: %v", i, err))
+			return false
+		}
+		sequence.VerifReset(0)
+		if err := s.w.Open(); err != nil {
+			s.fail("reopen-differs", "open", fmt.Sprintf("step %d: Open after restart failed: %v", i, err))
+			return false
+		}
+		s.a.db = s.w.DB
+		s.m.Reopen()
+		s.probes["restart"]++
 	case "reopen":
 		if err := s.w.Close(); err != nil {
 			s.fail("error-class", "close", fmt.Sprintf("step %d: Close failed: %v", i, err))
@@ -191,21 +222,58 @@ func seqExec(c SeqCase, choices []int32) RunOut {
 	}
 	var infra string
 	res := simrt.Run(cfg, func() {
-		w, err := NewWorld(c.World, c.Sched.Seed)
-		if err != nil {
-			infra = "world: " + err.Error()
-			return
+		var w *World
+		var err error
+		if c.Dir != "" {
+			w = worldAt(c.Dir, c.World, c.Sched.Seed+uint64(c.From)*7919, c.From == 0)
+		} else {
+			w, err = NewWorld(c.World, c.Sched.Seed)
+			if err != nil {
+				infra = "world: " + err.Error()
+				return
+			}
 		}
 		s.w = w
+		if c.Fixture != "" && c.From == 0 {
+			if err := s.loadFixture(c.Fixture); err != nil {
+				infra = "fixture: " + err.Error()
+				return
+			}
+		}
+		if c.Corrupt != nil {
+			s.corruptAndOpen(*c.Corrupt)
+			return
+		}
 		if err := w.Open(); err != nil {
+			if c.Fixture != "" || c.From > 0 {
+				s.fail("reopen-differs", "open", "Open of the existing database directory failed: "+err.Error())
+				simrt.Stop()
+			}
 			infra = "open: " + err.Error()
 			return
+		}
+		s.a = &actors{db: w.DB, txs: map[int]fs_db.Tx{}}
+		if c.Fixture != "" && c.From == 0 {
+			// everything the writer acknowledged must be there before anything else happens
+			s.readBack(Op{K: "open"}, -1)
+			if s.viol != nil {
+				s.viol.Class = "reopen-differs"
+				s.viol.Signature = c.Prop + "|reopen-differs|fixture-open"
+				simrt.Stop()
+			}
 		}
 		s.a = &actors{db: w.DB, txs: map[int]fs_db.Tx{}}
 		if c.Client == "simgrpc" && newSimGrpcClient != nil {
 			s.a.db = newSimGrpcClient(w)
 		}
 		for i, o := range c.Ops {
+			if i < c.From {
+				s.modelOnly(o)
+				continue
+			}
+			if c.To > 0 && i >= c.To {
+				break
+			}
 			for _, f := range c.FaultOps {
 				if f == i {
 					// every Badger update of this op fails
@@ -236,7 +304,10 @@ func seqExec(c SeqCase, choices []int32) RunOut {
 			s.fail("error-class", "close", "final Close failed: "+err.Error())
 		}
 	})
-	if s.w != nil {
+	if c.Fixture != "" {
+		os.Chdir("/")
+	}
+	if s.w != nil && c.Dir == "" {
 		s.w.Destroy()
 	}
 	out := RunOut{Steps: res.Steps, Switches: res.Switches, TimerFires: res.TimerFires, SimNs: res.SimTimeNs,
@@ -264,6 +335,26 @@ func seqExec(c SeqCase, choices []int32) RunOut {
 	}
 	finishStatus(&out, res, c.Prop, s.viol, "seq")
 	return out
+}
+
+// modelOnly advances the model over an operation that an earlier process executed.
+func (s *seqRun) modelOnly(o Op) {
+	switch o.K {
+	case "restart", "reopen":
+		s.m.Reopen()
+	case "begin":
+		s.m.Begin(o.tx(), refmodel.Level(o.Level))
+	case "commit":
+		s.m.Commit(o.tx())
+	case "rollback":
+		s.m.Rollback(o.tx())
+	case "set", "setr", "create":
+		v := refmodel.Val{ID: o.ID, Size: o.Size}
+		s.idx.add(v)
+		s.m.Set(o.tx(), o.Key, v)
+	case "del":
+		s.m.Delete(o.tx(), o.Key)
+	}
 }
 
 func opsSummary(ops []Op) []string {
